@@ -284,7 +284,7 @@ class Calls:
         env_pre = S.Env(ex, pre_store, names, this_path, dict(c.extra_env))
         extra = dict(c.extra_env)
         for k, e in c.lets.items():
-            extra[k] = S.spec_eval(e, env_pre, extra)
+            extra[k] = S.spec_eval_term(e, env_pre, extra)
             env_pre.extra[k] = extra[k]
         ghost_req = []
         for i, r in enumerate(c.requires):
